@@ -214,7 +214,7 @@ def check_reassembly(ctx, R, DR, MARKER, size_ok, size_desc, min_packet=8):
     edges = [(st, case) for st in info["ends"] + info["continues"] for case in split(st)]
     for st, facts in edges:
         ctx.count("back_edges")
-        kept = strip(simplify(st.env.get(buf_key, ("top", "?")), facts))
+        kept = strip(oc(simplify(st.env.get(buf_key, ("top", "?")), facts)))          # (offsets hidden behind settled gates are views too)
         kb = kept if kept[0] == "slice" else None
         if kb is None or kb[3] is not None or kb[4] is not None or kb[2] is None:
             ctx.ob(R + ".c", DR, False, "", func=DR, file=file, construct=f"self.{attr} after extraction",
@@ -240,7 +240,7 @@ def check_reassembly(ctx, R, DR, MARKER, size_ok, size_desc, min_packet=8):
         for p in puts:
             t = tl(p.args[0]) if p.args else None
             if t is not None:
-                delivered = strip(simplify(oc(t), facts))
+                delivered = strip(oc(simplify(oc(t), facts)))
         dl = delivered if delivered is not None and delivered[0] == "slice" else None
         part = dl is not None and strip(dl[1]) == V and dl[2] is None and dl[3] == N and dl[4] is None
         ctx.ob(R + ".c", DR, part, "delivered = view[:N] and kept = view[N:] with the same N", func=DR, file=file, construct="partition",
